@@ -204,6 +204,10 @@ def cases():
     out.append(Case('seq/element-start', SA.format(dbody='    call kern(n - 1, a(2), b(1))\n    call kern(n, c(1, 2), b)'), 'drv', S, seqassoc, 'sequence-association'))
     out.append(Case('seq/2d-element', SA.format(dbody='    call kern(n, c(1, 1), b)\n    call kern(2, c(2, 2), b(2))'), 'drv', S, seqassoc, 'sequence-association'))
     out.append(Case('seq/whole-and-section', SA.format(dbody='    call kern(n, a, b)\n    call kern(n, c(:, 1), a)'), 'drv', S, seqassoc, 'sequence-association'))
+    # actuals whose declared shape has no upper bound (deferred shape) or a lower bound other than 1
+    out.append(Case('seq/allocatable-actual', SA.format(dbody='    real, allocatable :: wk(:, :)\n    allocate(wk(n, 2))\n    wk(:, 1) = a(:)\n    wk(:, 2) = b(:)\n    call kern(n - 1, wk(2, 1), b(1))\n    call kern(n - 2, wk(3, 2), a)\n    a(:) = wk(:, 1) - wk(:, 2)\n    deallocate(wk)'), 'drv', S, seqassoc, 'sequence-association'))
+    out.append(Case('seq/allocatable-lower-bound-0', SA.format(dbody='    real, allocatable :: wh(:)\n    allocate(wh(0:n))\n    wh(:) = 0.5\n    wh(1:n) = a(:)\n    call kern(n - 1, wh(2), b(1))\n    call kern(n, wh(0), b)\n    a(:) = wh(0:n-1) + wh(n)\n    deallocate(wh)'), 'drv', S, seqassoc, 'sequence-association'))
+    out.append(Case('seq/explicit-lower-bound-0', SA.format(dbody='    real :: eh(0:n)\n    eh(0) = 0.25\n    eh(1:n) = a(:)\n    call kern(n - 1, eh(2), b(1))\n    call kern(n, eh(0), b)\n    a(:) = eh(0:n-1) - eh(n)'), 'drv', S, seqassoc, 'sequence-association'))
     out.append(Case('argshape/assumed-shape', SH, 'drv', [{'n': 3, 'm': 2}, {'n': 2, 'm': 3}], argshape, 'argument-shape'))
     for rec in (False, True):
         for ren in (False, True):
